@@ -15,13 +15,16 @@ namespace PersimVerif.SrcNp
 /-- what a generated definition can fail with.  The first four are Python exceptions.  `negativeIndex`: an index below 0
     reached a subscript (Python would wrap around; the translation does not model that and flags it instead).  `bound`:
     the iteration bound of a `while` loop (the translator's table gives it) was exhausted -- not a Python behaviour; every
-    obligation `… = .ok …` proves that it does not occur, i.e. that the loop terminates within the bound. -/
+    obligation `… = .ok …` proves that it does not occur, i.e. that the loop terminates within the bound.  `draws`: the list of
+    recorded `np.random.choice` draws that a definition receives as a parameter is used up -- not a Python behaviour either; the
+    obligations assume at least as many draws as permutations. -/
 inductive PyErr where
   | indexError
   | valueError
   | stopIteration
   | negativeIndex
   | bound
+  | draws
   deriving DecidableEq, Repr
 
 /-- `l[k]` for a list / 1-D array and an index `k ≥ 0`: `IndexError` beyond the end -/
@@ -123,12 +126,12 @@ def anyUpperLt (K : List (List Nat)) (d : Nat) : Bool :=
   (List.range K.length).any fun i => (List.range' (i + 1) (ncols K - (i + 1))).any fun j => decide ((K.getD i []).getD j 0 < d)
 
 /-- index of the first minimum -/
-def argminFrom : List Int → Nat → Int → Nat → Nat
+def argminFrom {α : Type} [LT α] [DecidableLT α] : List α → Nat → α → Nat → Nat
   | [], _, _, bi => bi
   | x :: xs, k, best, bi => if x < best then argminFrom xs (k + 1) x k else argminFrom xs (k + 1) best bi
 
-/-- `np.argmin(v)` of a 1-D integer array: the index of the FIRST minimum; `ValueError` on an empty array -/
-def npArgmin : List Int → Except PyErr Nat
+/-- `np.argmin(v)` of a 1-D array: the index of the FIRST minimum; `ValueError` on an empty array -/
+def npArgmin {α : Type} [LT α] [DecidableLT α] : List α → Except PyErr Nat
   | [] => .error PyErr.valueError
   | x :: xs => .ok (argminFrom xs 1 x 0)
 
@@ -145,5 +148,56 @@ def npMax (D : List (List Nat)) : Except PyErr Nat :=
   match D.flatten with
   | [] => .error PyErr.valueError
   | x :: xs => .ok (xs.foldl max x)
+
+/-! ### NumPy idioms of `construct_mapping` / `find_ub_of_min_distortion` -/
+
+/-- `l[ks]` (integer-array indexing of a 1-D array with non-negative indices) -/
+def takeIdx (l : List Nat) : List Nat → Except PyErr (List Nat)
+  | [] => .ok []
+  | k :: ks =>
+    match getItem l k with
+    | .error e => .error e
+    | .ok v =>
+      match takeIdx l ks with
+      | .error e => .error e
+      | .ok vs => .ok (v :: vs)
+
+/-- `D[:, ks]` -/
+def takeCols : List (List Nat) → List Nat → Except PyErr (List (List Nat))
+  | [], _ => .ok []
+  | r :: rs, ks =>
+    match takeIdx r ks with
+    | .error e => .error e
+    | .ok v =>
+      match takeCols rs ks with
+      | .error e => .error e
+      | .ok vs => .ok (v :: vs)
+
+/-- `np.max(np.abs(DX[x, xs] - DY[:, ys]), axis=1)` read entry-wise: for every row `r` of `DY` the largest
+    `|DX[x][xs[c]] - DY[r][ys[c]]|` over the positions `c`.  Index arrays of different lengths are flagged (`ValueError`; NumPy
+    would broadcast a length-1 axis), and so is an empty one (`np.max` over an axis of length 0). -/
+def bottlenecksFrom (DX DY : List (List Nat)) (x : Nat) (xs ys : List Nat) : Except PyErr (List Nat) :=
+  match getItem DX x with
+  | .error e => .error e
+  | .ok rowX =>
+    match takeIdx rowX xs with
+    | .error e => .error e
+    | .ok a =>
+      match takeCols DY ys with
+      | .error e => .error e
+      | .ok B =>
+        if xs.length ≠ ys.length ∨ xs = [] then .error PyErr.valueError
+        else .ok (B.map fun b => (List.zipWith (fun (p q : Nat) => ((p : Int) - (q : Int)).natAbs) a b).foldl max 0)
+
+/-- `min(a, acc)` where `acc` is a running minimum that started at `np.inf` (`none`) -/
+def minTop (a : Nat) : Option Nat → Nat
+  | none => a
+  | some b => min a b
+
+/-- `acc <= g` where `acc` is a running minimum that started at `np.inf` (`none`) -/
+def leTop (acc : Option Nat) (g : Nat) : Bool :=
+  match acc with
+  | none => false
+  | some b => decide (b ≤ g)
 
 end PersimVerif.SrcNp
